@@ -6,6 +6,11 @@ VERIF = os.path.dirname(os.path.dirname(os.path.abspath(__file__)))
 ALL = ["C%02d" % i for i in range(1, 21)]
 
 CLAIMED = {
+ "C17": dict(
+   technique="Three TLA+ specs enumerated by TLC: ConfGrammar.tla (generative grammar: one constructor per production, near-miss mutations, expected AST), Include.tla (include graphs over a directory tree, expected depth-first merge order / error / read set), ConfBuild.tla (typed-layer rules over perturbations x key classes); every state rendered to text / files and run through config_parser.Parse, config.Merger (opens observed with inotify), config.New and the routing builders (real kernel maps for the size limit)",
+   text="TLC enumerates every item the grammar can produce (all productions, quoting styles) and simulated multi-section configurations with token-level near-misses; the parse tree must equal the generated AST one-to-one and malformed text must yield an error or a tree without crashing or hanging (this found and fixed parser crashes). All 5460 include graphs over a 7-file tree (globs, .., absolute paths, cycles, outside paths, non-.dae files) are materialised and merged: order, rejection and the set of opened files are compared. Typed-layer rules (required/unknown sections and keys, defaults for every key of section global discovered by reflection, wrong types, programs of Limit-1..2*Limit match sets) are checked against config.New and the builders.",
+   note="Option-value validation is out of scope; a diamond include (non-circular double include) carries no obligation. Trusted: TLC, inotify IN_OPEN.",
+   design="§3 C17"),
  "C14": dict(
    technique="TLA+ spec GroupFilter.tla (three-valued reference evaluation of filter lines: member / not member / invalid element reached; first-line annotation) enumerated by TLC; every (pool, group) vector rendered to dae configuration text and run through config_parser, config.New, DialerSet.FilterAndAnnotate, NewDialerSelectionPolicyFromGroupParam and DialerGroup.Select",
    text="TLC enumerates 4 node pools (duplicates, empty names, empty pool) x every single filter line over the condition universe (name/subtag/unknown input, negation, exact/keyword/regex/bad-regex/unknown-key alternatives singly and in pairs, 7 annotation lists incl. malformed ones) and simulated groups of up to 3 lines, and emits members, order, annotations or the error obligation; the harness compares the real result member by member. The six policies, fixed(i) in/out of range and malformed policies are checked against construction and selection.",
